@@ -532,9 +532,29 @@ func (e *Engine) execNext(st *State, f *Frame, ins *ssa.Next) {
 		}
 		bs := e.strBytes(st, it.str)
 		b0, ok := bs[it.pos].(*Term)
-		if !ok || !b0.IsConst() {
-			// symbolic byte: ASCII vs non-ASCII
-			e.unsupported(st, "range over string with symbolic bytes")
+		if !ok {
+			e.unsupported(st, "range over string: non-term byte")
+		}
+		if !b0.IsConst() {
+			// symbolic lead byte: an ASCII byte is a one-byte rune; multi-byte sequences with a
+			// symbolic lead byte are not decoded (that branch ends as unsupported if feasible)
+			ascii := c.Cmp(OpUlt, b0, c.BV(8, 0x80))
+			pos := it.pos
+			iter := ins.Iter
+			e.fork(st, []Alt{
+				{ascii, func(s *State) {
+					fr := s.top()
+					it2 := *(e.get(s, fr, iter).(*IterVal))
+					it2.pos = pos + 1
+					e.set(fr, iter, &it2)
+					e.set(fr, ins, TupleVal{c.True, c.BV(64, uint64(pos)), c.Zext(b0, 32)})
+					fr.pc++
+				}},
+				{c.Not(ascii), func(s *State) {
+					e.unsupported(s, "range over string: symbolic non-ASCII lead byte")
+				}},
+			})
+			return
 		}
 		// decode rune concretely
 		buf := []byte{}
